@@ -419,6 +419,13 @@ def _eval_generate1(g, relativize, origin, sub, layout):
     try:
         za = _load(a, origin, relativize)
     except Exception as e:
+        if _gshape(g) == "quoted right-hand side of several fields" and exc_name(e) == "dns.exception.SyntaxError":
+            # BIND accepts a quoted multi-field right-hand side; dnspython's $GENERATE takes a single
+            # token and refuses this form with its own SyntaxError.  The property compares a
+            # $GENERATE the library accepts with its expansion; it does not demand that this extra
+            # BIND spelling be accepted, so a clean refusal is not flagged (decided by the
+            # maintainer of this check after triage: reporting it was a false alarm).
+            return "skip", "quoted multi-field rhs is not part of dnspython's $GENERATE syntax"
         return (f"'{line}' rejected although its expansion loads: {exc_name(e)}: {short(e, 80)}",
                 sig("generate rejected", exc=exc_name(e))), None
     d = diff_dumps(dump(zb), dump(za))
